@@ -530,19 +530,8 @@ Definition tree_rank (t : pt) : res (Z * Z) :=
   do r <- from_plain t; Ok (lt_srk r, lt_lrk r).
 
 (* ------------------------------------------------------------------------------
-   Enumeration generators (as lists).
-   itertools.combinations_with_replacement(pool, r): index tuples in lexicographic order *)
-Fixpoint cwr_list {A} (r : nat) (pool : list A) : list (list A) :=
-  match r with
-  | O => [[]]
-  | S r' =>
-      (fix aux (p : list A) : list (list A) :=
-         match p with
-         | [] => []
-         | e :: rest => map (cons e) (cwr_list r' p) ++ aux rest
-         end) pool
-  end.
-
+   Enumeration generators (as lists).  itertools.combinations_with_replacement is
+   [cwr_list] (Combination.v). *)
 (* RankTree.all_unlabelled_trees(n) / all_subtree_pairings(grouped_part)   (965-994) *)
 Definition all_subtree_pairings_with (rec : Z -> res (list shape))
   : list (list Z) -> res (list (list shape)) :=
